@@ -1279,12 +1279,13 @@ class BinaryMappingVariables(BaseVariableGroup):
         >>> print(*f(2,None))
         4 5 6
         """
-        if (m < 1 or n < 1):
-            raise ValueError("n and m must be positive")
+        if (m < 0 or n < 0):
+            raise ValueError("n and m must be non negative")
         self.domain_size = n
         self.range_size = m
         self.id_offset = formula.number_of_variables()
-        self.bitlength = int(ceil(log(m, 2)))
+        # no bits are needed to tell apart at most one value
+        self.bitlength = int(ceil(log(m, 2))) if m > 1 else 0
         nvar = n * self.bitlength
         BaseVariableGroup.__init__(self, formula, nvar, labelfmt=labelfmt)
         self.flips = []
